@@ -145,3 +145,97 @@ func propRejectedCopyReported(t *vt.T) {
 }
 
 func TestC01RejectedCopyReported(t *testing.T) { vt.CheckBubble(t, "C01", propRejectedCopyReported) }
+
+// C04 directed: the predecessor was delivered days ago (its record lies several day files back in
+// the receive log) and the receiver has been restarted since, so that the delivery is known only
+// from the log. A file announcing that predecessor is held while the receiver looks for it -
+// one more day further back every ten seconds - and must be released once it has found it,
+// after the predecessor and never before.
+func propOldPredecessor(t *vt.T) {
+	w := NewWorld(t, "C04")
+	s := &Scenario{w: w, t: t, p: Profile{Prop: "C04"}, psize: t.IntRange("partSize", 1, 4)}
+	defer s.Close()
+	if t.Bool("firstPoll") {
+		w.st.GetFileStatus("no/such/file", time.Now().Add(-time.Hour))
+	}
+	a := &Version{Name: "g/a.dat", Data: s.newContent(s.psize + 1), Time: time.Now().Add(-3 * time.Hour)}
+	bParts := t.IntRange("bParts", 1, 3)
+	w.AddVersion(a)
+	s.files = []*fileState{{cur: a, parts: tile(a, s.psize)}}
+	w.Request(tile(a, s.psize))
+	w.Settle()
+	s.observe()
+	if w.arrivedCount(a) != 1 {
+		t.Skip("predecessor not delivered")
+	}
+	days := t.IntRange("daysAgo", 0, 6)
+	if days > 0 {
+		w.Advance(time.Duration(days)*24*time.Hour + time.Duration(t.IntRange("extraHours", 0, 23))*time.Hour)
+		s.observeSettled()
+	}
+	if t.Weighted("restart", 1, 3) == 1 {
+		w.Restart()
+		s.observe()
+		t.Class("restart")
+	}
+	if days >= 3 {
+		t.Class("predecessor-delivered-3+-days-ago")
+		t.NonTrivial()
+	}
+	// the successors are recent files (or as old as the predecessor: then the receiver's log
+	// window for them reaches back that far anyway)
+	age := 2 * time.Hour
+	if t.Weighted("successorsAsOldAsPredecessor", 3, 1) == 1 {
+		age = time.Since(a.Time) - time.Minute
+	}
+	b := &Version{Name: "g/b.dat", Prev: a.Name, Data: s.newContent(s.psize*bParts + 1), Time: time.Now().Add(-age)}
+	c := &Version{Name: "g/c.dat", Prev: b.Name, Data: s.newContent(s.psize + 1), Time: time.Now().Add(-age / 2)}
+	w.AddVersion(b)
+	w.AddVersion(c)
+	s.files = append(s.files, &fileState{cur: b, parts: tile(b, s.psize)}, &fileState{cur: c, parts: tile(c, s.psize)})
+	withC := t.Bool("withSuccessor")
+	if withC && t.Bool("successorFirst") {
+		w.Request(tile(c, s.psize))
+	}
+	w.Request(tile(b, s.psize))
+	if withC {
+		w.Request(tile(c, s.psize)) // (a second copy of c is a duplicate, if it went first)
+	}
+	w.Settle()
+	s.observe()
+	for i := 0; i < 12 && w.arrivedCount(b) == 0; i++ {
+		w.Advance(11 * time.Second)
+		s.observe()
+	}
+	if w.arrivedCount(b) == 0 {
+		t.Class("held-for-predecessor")
+		w.viol("C04", "held-although-predecessor-delivered", "%s announces %s, which was delivered %d day(s) ago and is on record in the receive log; two simulated minutes after its validation it is still held (poll: %s; stage %v)",
+			b.Name, a.Name, days, statusName(w.Poll(b)), keysOf(w.StageFiles()))
+	}
+	if withC {
+		for i := 0; i < 6 && w.arrivedCount(c) == 0; i++ {
+			w.Advance(11 * time.Second)
+			s.observe()
+		}
+		if w.arrivedCount(c) == 0 {
+			w.viol("C04", "held-although-predecessor-delivered", "%s (after %s) is still held", c.Name, b.Name)
+		}
+	}
+	// order in the receive log
+	idx := map[string]int{}
+	for i, r := range w.LogRecords() {
+		if _, ok := idx[r.Name]; !ok {
+			idx[r.Name] = i
+		}
+	}
+	if ib, ok := idx[b.Name]; ok && ib < idx[a.Name] {
+		w.viol("C04", "delivered-before-predecessor", "%s is logged before its predecessor %s", b.Name, a.Name)
+	}
+	if ic, ok := idx[c.Name]; ok {
+		if ib, okb := idx[b.Name]; !okb || ic < ib {
+			w.viol("C04", "delivered-before-predecessor", "%s is logged before its predecessor %s", c.Name, b.Name)
+		}
+	}
+}
+
+func TestC04OldPredecessor(t *testing.T) { vt.CheckBubble(t, "C04", propOldPredecessor) }
